@@ -701,3 +701,8 @@ _NEW_LL = "    num_levels = len(idx.children_in_level)\n    for level in range(n
 for _p, _r in (("C01", "R-C01-schedule"), ("C02", "R-C02-schedule")):
     P(_p, SV, _OLD_LL, _NEW_LL)
     B(_p, SV, _OLD_LL, _NEW_LL.replace("range(num_levels - 1, -1, -1)", "range(num_levels)"), _r)
+# the pad of make_trainable is the sentinel (shared C05 / C10 / C19)
+_OLD_PD = "        pad = lambda x: np.pad(x, (0, max_len - x.shape[0]), constant_values=-1)"
+for _p, _r in (("C10", "R-C10-sentinel"), ("C19", "R-C19-sentinel")):
+    B(_p, BASE, _OLD_PD, "        pad = lambda x: np.pad(x, (0, max_len - x.shape[0]), constant_values=0)", _r)
+    P(_p, BASE, _OLD_PD, "        pad = lambda x: np.pad(x, (max_len - x.shape[0], 0), constant_values=-1)")
